@@ -599,3 +599,9 @@ Definition no_tgh (g : gr) : bool :=
 (** vocabulary of the two-routes theorem: every node of the ITS carries typesGH (as ITSGraph writes it) *)
 Definition all_tgh (g : gr) : bool :=
   forallb (fun p : N * natt => match a_tgh (snd p) with Some _ => true | None => false end) (gnodes g).
+
+(** ... and the domains of the later theorems *)
+Definition run_hx3 (g : gr) (nodes : option (list N)) (its : bool) : tok :=
+  L [run_hx2 g nodes its; tbool (gwfb g); tbool (no_H g); tbool (no_tgh g)].
+Definition run_its3 (its : gr) (core reindex explicit_h : bool) : tok :=
+  L [run_its2 its core reindex explicit_h; tbool (gwfb its); tbool (all_tgh its)].
